@@ -234,7 +234,7 @@ type vqMismatch struct {
 }
 
 func (c *vqCase) replayObj() map[string]interface{} {
-	return map[string]interface{}{"test": "CQ", "behaviour": c.beh, "seed": c.seed, "index": c.idx}
+	return map[string]interface{}{"test": "TestVerifCQReplay", "behaviour": c.beh, "seed": c.seed, "index": c.idx}
 }
 
 // send one request to node n's service and wait until the service has completely processed it
@@ -662,8 +662,12 @@ func TestVerifCQTimer(t *testing.T) {
 	s.RunInterval = 5 * time.Millisecond
 	s.Open()
 	defer s.Close()
-	waitCalls := func(k int) {
-		for i := 0; i < k; i++ {
+	// wait for k more lease requests of the timer and for at least `span` of real time: a refused service must stay
+	// idle however long it is refused, and a service that ignored the refusal would need up to one interval
+	// before its next bucket is due
+	waitCalls := func(k int, span time.Duration) {
+		t0 := time.Now()
+		for i := 0; i < k || time.Since(t0) < span; i++ {
 			select {
 			case <-mc.tick:
 			case <-time.After(vqWatchdog):
@@ -672,12 +676,12 @@ func TestVerifCQTimer(t *testing.T) {
 		}
 	}
 	bad := func(sig, detail string) {
-		vtrace.Mismatch(sig, detail, map[string]interface{}{"test": "CQTIMER"})
+		vtrace.Mismatch(sig, detail, map[string]interface{}{"test": "TestVerifCQTimer"})
 		vtrace.Done("TestVerifCQTimer", map[string]interface{}{"mismatches": 1})
 		t.FailNow()
 	}
 	// phase 1: the lease is refused: the timer keeps asking, nothing may run
-	waitCalls(8)
+	waitCalls(8, 4*I)
 	rec.mu.Lock()
 	n1 := len(rec.execs)
 	rec.mu.Unlock()
@@ -705,11 +709,11 @@ func TestVerifCQTimer(t *testing.T) {
 	mc.mu.Lock()
 	mc.grant = false
 	mc.mu.Unlock()
-	waitCalls(8) // at least 7 complete refused rounds after the switch
+	waitCalls(3, 0) // a request that began after the switch was answered: a pass granted earlier is complete
 	rec.mu.Lock()
 	execs, at := append([]vqExec{}, rec.execs...), append([]time.Time{}, rec.at...)
 	rec.mu.Unlock()
-	waitCalls(4)
+	waitCalls(8, 4*I)
 	rec.mu.Lock()
 	n3 := len(rec.execs)
 	rec.mu.Unlock()
